@@ -434,7 +434,7 @@ class Assembled:
 
 def assemble(unit: dict, scratch: str, passname="A") -> Assembled:
     job = {k: unit[k] for k in ("files", "fns", "exclude_fns", "aliases", "rename_calls", "extern_effectful", "extern_pure",
-                                "force_effectful", "native_arith") if k in unit}
+                                "force_effectful", "native_arith", "rename_fns") if k in unit}
     job["root"] = REPO
     job["checked_arith"] = passname == "A"
     tr = run_translator(job, scratch, unit["name"])
@@ -486,6 +486,9 @@ def assemble(unit: dict, scratch: str, passname="A") -> Assembled:
         if f["in_trait_decl"] and not unit.get("emit_trait_defaults"):
             continue
         g = (f["impl_type"], f["impl_generics"], f["impl_self_ty"]) if f["impl_type"] else None
+        if g is not None and f.get("trait") and f["trait"] in unit.get("trait_impls", []):
+            # real trait impl (needed when the self type is a primitive such as i128: no inherent impl possible)
+            g = g + (f["trait"],)
         if g not in groups:
             groups[g] = []
             order.append(g)
@@ -498,8 +501,21 @@ def assemble(unit: dict, scratch: str, passname="A") -> Assembled:
         lines += s.count("\n") + 1
 
     emit("// ==== functions extracted from /repo (bodies rewritten only by rules T1-T12) ====")
+    for tname in unit.get("trait_impls", []):
+        # declaration of a source trait whose impls are emitted as trait impls (signatures only, from the source)
+        for t in tr["traits"]:
+            if t["trait"] == tname:
+                sup = (": " + " + ".join(t["supertraits"])) if t["supertraits"] else ""
+                emit(f"pub trait {tname}{sup} {{")
+                for m in t["methods"]:
+                    ps = ", ".join(p["ty"] if p["name"] == "self" else f"{p['name']}: {p['ty']}" for p in m["params"])
+                    emit(f"    fn {m['name']}({ps})" + (f" -> {m['ret']}" if m["ret"] else "") + ";")
+                emit("}")
     for g in order:
-        if g is not None:
+        pending_canaries = []
+        if g is not None and len(g) == 4:
+            emit(f"impl{g[1]} {g[3]} for {g[2]} {{")
+        elif g is not None:
             emit(f"impl{g[1]} {g[2]} {{")
         for f in groups[g]:
             key = f["key"]
@@ -514,7 +530,8 @@ def assemble(unit: dict, scratch: str, passname="A") -> Assembled:
             if sp and sp.trusted:
                 attrs = "#[verifier::external_body]\n"
             start = lines + 1
-            hdr = fn_header(f)
+            ret_name = (sp.opts.get("ret") if sp else None) or ("res" if any(p["name"] in ("r", "mut r") for p in f["params"]) else "r")
+            hdr = fn_header(f, ret_name=ret_name)
             emit(f"// @@fn {key}  [{f['file']}]  src_sha={f['src_sha'][:16]}")
             emit(attrs + hdr)
             cstart = lines + 1
@@ -528,15 +545,33 @@ def assemble(unit: dict, scratch: str, passname="A") -> Assembled:
             asm.fn_ranges.append((start, lines, key, "fn"))
             asm.fns[key] = f
             if sp and sp.contract.strip() and not sp.trusted and sp.no_canary is None and unit.get("canaries", True):
-                cs = lines + 1
-                emit(f"// @@canary {key}")
-                emit(fn_header(f, name_override=f["name"] + "__canary"))
                 req = strip_ensures(contract)
-                emit(req + ("\n" if req.strip() else "") + "    ensures false,")
-                emit(body)
+                ctext = [f"// @@canary {key}", fn_header(f, name_override=f["name"] + "__canary", ret_name=ret_name),
+                         req + ("\n" if req.strip() else "") + "    ensures false,", body]
+                if g is not None and len(g) == 4:
+                    # a trait impl cannot hold extra methods: canaries go to a companion trait (below)
+                    pending_canaries.append((key, f, ctext))
+                else:
+                    cs = lines + 1
+                    for c_ in ctext:
+                        emit(c_)
+                    asm.fn_ranges.append((cs, lines, key, "canary"))
+                    asm.n_canaries += 1
+        if g is not None:
+            emit("}")
+        if pending_canaries:
+            ct = f"{g[3]}__canary_{re.sub(r'[^A-Za-z0-9]', '_', g[2])}"
+            emit(f"pub trait {ct}: Sized {{")
+            for (key, f, ctext) in pending_canaries:
+                emit("    " + fn_header(f, name_override=f["name"] + "__canary").replace("pub fn", "fn").replace("-> (r: ", "-> (").rstrip() + ";")
+            emit("}")
+            emit(f"impl{g[1]} {ct} for {g[2]} {{")
+            for (key, f, ctext) in pending_canaries:
+                cs = lines + 1
+                for c_ in ctext:
+                    emit(c_)
                 asm.fn_ranges.append((cs, lines, key, "canary"))
                 asm.n_canaries += 1
-        if g is not None:
             emit("}")
     text += "\n".join(out) + "\n} // verus!\nfn main() {}\n"
     asm.text = text
